@@ -99,7 +99,8 @@ pub fn seeds(tier: &str) -> Vec<(Seed, PlanOpts)> {
         // quick: the boilerplate tables every synthetic seed shares get a 24-byte window, the tables the seed was written
         // for (CFF, CFF2, CBLC, CBDT, EBLC, EBDT, morx, kern, sbix, SVG, STAT, fvar, avar, gvar, HVAR, MVAR, vhea, vmtx ...)
         // are covered at every position of their first 1024 bytes
-        let opts = if tier == "quick" { PlanOpts { subject_bytes: 1024, ..PlanOpts::heads(24) } } else { PlanOpts::full() };
+        let stored_woff2 = bytes.starts_with(b"wOF2") && n <= 1500;
+        let opts = if tier == "quick" && !stored_woff2 { PlanOpts { subject_bytes: 1024, ..PlanOpts::heads(24) } } else { PlanOpts::full() };
         out.push((Seed { name: format!("synthetic/{}", name), bytes: bytes.clone(), wrap: Wrap::Raw }, opts));
         // bound 2: coupled pairs
         let none = PlanOpts { head_bytes: 0, byte_faults: false, u16_faults: false, u32_faults: false, truncations: false, structure: false, pairs: 0, layout_only: false, subject_bytes: 0 };
